@@ -54,7 +54,19 @@ TRet == /\ IsEv("ret")
                      /\ UNCHANGED <<writer, readers>> /\ pend' = [pend EXCEPT ![t] = Idle]
                 [] OTHER -> UNCHANGED <<writer, readers>> /\ pend' = [pend EXCEPT ![t] = Idle]
 \* a pending Try observes an incompatible holder at any moment of its call
-TNext == TReset \/ TStuck \/ TInv \/ TRet
+\* Free-running timelines (driver component keyedfree): "pending" = the call of thread t has not returned after two seconds;
+\* that is explained only by a blocking acquisition of a key that is held incompatibly or that another call is pending on
+\* (cross-key independence; Try, release and ClearKey never wait).  "quiet" = key k is free, calls wait for it, and for two
+\* seconds none of them returned.  "end" = everything was released and every call has returned.
+Blocking == {"Lock", "WLock", "RLock"}
+TPending == /\ IsEv("pending")
+            /\ LET p == pend[Ev.t] IN p.op \in Blocking /\ (Incompat(p.op, p.k, writer, readers) \/ Overlap(Ev.t, p.k))
+            /\ UNCHANGED <<writer, readers, pend>>
+TQuiet == /\ IsEv("quiet")
+          /\ ~(writer[Ev.k] = 0 /\ readers[Ev.k] = {} /\ \E u \in Threads : pend[u].op \in Blocking /\ pend[u].k = Ev.k)
+          /\ UNCHANGED <<writer, readers, pend>>
+TEnd == IsEv("end") /\ (\A t \in Threads : pend[t].op = "idle") /\ UNCHANGED <<writer, readers, pend>>
+TNext == TReset \/ TStuck \/ TInv \/ TRet \/ TPending \/ TQuiet \/ TEnd
 TSpec == TInit /\ [][TNext]_vars
 Track == TrackL(l)
 Accepted == AcceptedP
